@@ -220,7 +220,7 @@ func (m *collection) mergerWaitForWork(pings []ping) (
 
 	m.m.Lock()
 
-	if m.stackDirtyTop == nil || len(m.stackDirtyTop.a) <= 0 {
+	if m.stackDirtyTop == nil || m.stackDirtyTop.isEmpty() {
 		m.waitDirtyIncomingCh = make(chan struct{})
 		waitDirtyIncomingCh = m.waitDirtyIncomingCh
 	}
